@@ -35,7 +35,8 @@ class LogDifferenceRateTransform(Transform):
         raise NotImplementedError
 
     def log_abs_det_jacobian(self, x, y) -> torch.Tensor:
-        return -y.sum(-1)
+        # triangular Jacobian (parents before children) with diagonal 1/x_i
+        return -x.log().sum(-1)
 
 
 @register_class
